@@ -583,6 +583,40 @@ def _lit(text):
     return Sym(E.const(Fraction(text), E.R))
 
 
+class _FmtRewriter(ast.NodeTransformer):
+    """'literal %d' % args  ->  __pyvc_fmt__('literal %d', args): %-formatting of symbolic values yields placeholders
+    instead of reaching the C-level int()/float() conversions."""
+
+    def visit_BinOp(self, node):
+        self.generic_visit(node)
+        if isinstance(node.op, ast.Mod) and isinstance(node.left, ast.Constant) and isinstance(node.left.value, str):
+            return ast.copy_location(ast.Call(ast.Name("__pyvc_fmt__", ast.Load()), [node.left, node.right], []), node)
+        return node
+
+
+def _fmt(template, args):
+    if not isinstance(args, tuple):
+        args = (args,)
+    safe = []
+    symbolic = False
+    for a in args:
+        if isinstance(a, symtorch.T) and a.a.size == 1:
+            a = a.item()
+        if isinstance(a, Sym):
+            if a.n.op == "const":
+                a = builtins.int(a.n.val) if a.n.sort == E.I else builtins.float(a.n.val)
+            else:
+                symbolic = True
+                a = "<sym#%d>" % a.n.id
+        safe.append(a)
+    if not symbolic:
+        return template % tuple(safe)
+    import re as _re
+
+    out = _re.sub(r"%[-+ #0]*\d*(?:\.\d+)?[diouxXeEfFgGs]", "%s", template)
+    return out % tuple(safe)
+
+
 def cut_loops(target: str, loops: dict):
     return recompile(target, loops=loops)
 
@@ -612,6 +646,7 @@ def recompile(target: str, loops: dict = None, lift_literals=False):
             raise Unmodelled("contract anchor moved: loop %d of %s is now over '%s' (contract expects '%s')" % (ordn, target, cutter.found[ordn], text))
     if lift_literals:
         new = _LiteralLifter().visit(new)
+    new = _FmtRewriter().visit(new)
     # wrap in a factory so that zero-argument super() keeps working
     factory = ast.parse("def __pyvc_factory__(__class__):\n    pass\n    return %s\n" % fdef.name)
     factory.body[0].body[0] = new.body[0]
@@ -629,4 +664,5 @@ def recompile(target: str, loops: dict = None, lift_literals=False):
     newfn.__kwdefaults__ = fn.__kwdefaults__
     g.setdefault("__pyvc__", RUNTIME)
     g.setdefault("__pyvc_lit__", _lit)
+    g.setdefault("__pyvc_fmt__", _fmt)
     return newfn
